@@ -44,6 +44,7 @@ def _is_simple(e):
 
 
 _STABLE = set()
+_CLASS_CNT = {}
 
 
 def census(trees):
@@ -52,10 +53,13 @@ def census(trees):
     across calls."""
     cnt = {}
     unstable = set()
+    _CLASS_CNT.clear()
     for t in trees:
         for fn in ast.walk(t):
             if isinstance(fn, (ast.FunctionDef, ast.AsyncFunctionDef)):
                 cnt[fn.name] = cnt.get(fn.name, 0) + 1
+            elif isinstance(fn, ast.ClassDef):
+                _CLASS_CNT[fn.name] = _CLASS_CNT.get(fn.name, 0) + 1
         for n in ast.walk(t):
             if isinstance(n, ast.Call) and isinstance(n.func, ast.Name) and n.func.id in ("setattr", "delattr") and len(n.args) >= 2:
                 unstable.add(n.args[1].value if isinstance(n.args[1], ast.Constant) else "*")
@@ -265,6 +269,121 @@ def _stored_names(fn):
     return out
 
 
+def _simple_cm_classes(tree, cnt_classes):
+    """private classes that are nothing but a scope guard: __init__ stores its parameters, __enter__ does nothing,
+    __exit__ runs some statements and never suppresses the exception.  -> {name: (param names, attr->param, exit body)}"""
+    out = {}
+    for c in tree.body:
+        if not (isinstance(c, ast.ClassDef) and _private(c.name) and cnt_classes.get(c.name) == 1 and not c.decorator_list):
+            continue
+        meths = {m.name: m for m in c.body if isinstance(m, ast.FunctionDef)}
+        if set(meths) != {"__init__", "__enter__", "__exit__"} or any(not isinstance(x, (ast.FunctionDef, ast.Expr, ast.Pass)) for x in c.body):
+            continue
+        init, en, ex = meths["__init__"], meths["__enter__"], meths["__exit__"]
+        if init.args.vararg or init.args.kwarg or init.args.defaults or init.args.kwonlyargs:
+            continue
+        params = [a.arg for a in init.args.args[1:]]
+        amap = {}
+        ok = True
+        for st in _doc_stripped(init.body):
+            if (isinstance(st, ast.Assign) and len(st.targets) == 1 and isinstance(st.targets[0], ast.Attribute)
+                    and isinstance(st.targets[0].value, ast.Name) and st.targets[0].value.id == init.args.args[0].arg
+                    and isinstance(st.value, ast.Name) and st.value.id in params):
+                amap[st.targets[0].attr] = st.value.id
+            elif not isinstance(st, ast.Pass):
+                ok = False
+        eb = _doc_stripped(en.body)
+        if not (len(eb) == 1 and (isinstance(eb[0], ast.Pass) or (isinstance(eb[0], ast.Return) and (eb[0].value is None or (
+                isinstance(eb[0].value, ast.Name) and eb[0].value.id == en.args.args[0].arg))))):
+            ok = False
+        xb = list(_doc_stripped(ex.body))
+        if xb and isinstance(xb[-1], ast.Return) and (xb[-1].value is None or (isinstance(xb[-1].value, ast.Constant) and xb[-1].value.value in (False, None))):
+            xb = xb[:-1]
+        if any(isinstance(n, (ast.Return, ast.Yield, ast.FunctionDef, ast.Lambda)) for st in xb for n in ast.walk(st)):
+            ok = False
+        xself = ex.args.args[0].arg
+        xparams = {a.arg for a in ex.args.args[1:]}
+        for st in xb:
+            for n in ast.walk(st):
+                if isinstance(n, ast.Name) and n.id in xparams:
+                    ok = False          # looks at the exception
+                if isinstance(n, ast.Name) and n.id == xself:
+                    pass
+                if isinstance(n, ast.Attribute) and isinstance(n.value, ast.Name) and n.value.id == xself and (n.attr not in amap or isinstance(n.ctx, ast.Store)):
+                    ok = False
+        if any(isinstance(n, ast.Name) and n.id == xself and not any(isinstance(p_, ast.Attribute) and p_.value is n for p_ in ast.walk(st))
+               for st in xb for n in ast.walk(st)):
+            ok = False
+        if ok and xb:
+            out[c.name] = (params, amap, xb, xself)
+    return out
+
+
+def _inline_context_managers(tree, cnt_classes):
+    """`with _Guard(a, b): BODY`  ->  `try: BODY finally: <body of _Guard.__exit__ with its attributes replaced by a, b>`"""
+    cms = _simple_cm_classes(tree, cnt_classes)
+    if not cms:
+        return 0
+    n_done = 0
+    for owner in ast.walk(tree):
+        for fld in ("body", "orelse", "finalbody"):
+            blk = getattr(owner, fld, None)
+            if not (isinstance(blk, list) and blk and isinstance(blk[0], ast.stmt)):
+                continue
+            for i, st in enumerate(blk):
+                if not (isinstance(st, ast.With) and len(st.items) == 1 and st.items[0].optional_vars is None):
+                    continue
+                ce = st.items[0].context_expr
+                if not (isinstance(ce, ast.Call) and isinstance(ce.func, ast.Name) and ce.func.id in cms and not ce.keywords):
+                    continue
+                params, amap, xb, xself = cms[ce.func.id]
+                if len(ce.args) != len(params) or not all(_is_simple(a) for a in ce.args):
+                    continue
+                # the arguments must still mean the same when the block ends
+                argnames = {n.id for a in ce.args for n in ast.walk(a) if isinstance(n, ast.Name)}
+                if any(isinstance(n, ast.Name) and n.id in argnames and isinstance(n.ctx, (ast.Store, ast.Del)) for s2 in st.body for n in ast.walk(s2)):
+                    continue
+                p2a = dict(zip(params, ce.args))
+
+                class A(ast.NodeTransformer):
+                    def visit_Attribute(s, node):
+                        if isinstance(node.value, ast.Name) and node.value.id == xself and node.attr in amap:
+                            return copy.deepcopy(p2a[amap[node.attr]])
+                        return s.generic_visit(node)
+                fin = [A().visit(copy.deepcopy(x)) for x in xb]
+                blk[i] = ast.copy_location(ast.Try(body=st.body, handlers=[], orelse=[], finalbody=fin), st)
+                n_done += 1
+    return n_done
+
+
+def _lambda_applicable(fn, p, lam):
+    """the parameter is only ever called, with as many simple positional arguments as the lambda has parameters"""
+    a = lam.args
+    if a.vararg or a.kwarg or a.kwonlyargs or a.defaults or a.posonlyargs:
+        return False
+    n = len(a.args)
+    uses = [x for x in ast.walk(fn) if isinstance(x, ast.Name) and x.id == p and isinstance(x.ctx, ast.Load)]
+    calls = [c for c in ast.walk(fn) if isinstance(c, ast.Call) and isinstance(c.func, ast.Name) and c.func.id == p]
+    if len(uses) != len(calls) or not calls:
+        return False
+    return all(len(c.args) == n and not c.keywords and all(_is_simple(x) for x in c.args) for c in calls)
+
+
+class _BetaReduce(ast.NodeTransformer):
+    """`p(x)` with p bound to `lambda f: E`  ->  E[f := x]"""
+
+    def __init__(self, lam):
+        self.lam = lam
+
+    def visit_Call(self, node):
+        self.generic_visit(node)
+        if isinstance(node.func, ast.Name) and node.func.id in self.lam:
+            l = self.lam[node.func.id]
+            body = copy.deepcopy(l.body)
+            return _Sub({a.arg: x for a, x in zip(l.args.args, node.args)}).visit(body)
+        return node
+
+
 def _expand(fn, call, recv_kind, self_name, result_name=None):
     """-> (prefix statements, result expression or None) for one call of helper fn, or None"""
     b = _bind(fn, call, recv_kind)
@@ -278,19 +397,32 @@ def _expand(fn, call, recv_kind, self_name, result_name=None):
     ren = {n: n + tag for n in stored}
     prefix = []
     sub = {}
+    lam = {}
     for p in params:
         a = m[p]
+        if isinstance(a, ast.Lambda) and p not in stored and _lambda_applicable(fn, p, a):
+            lam[p] = a
+            continue
         if p not in stored and _is_simple(a):
             sub[p] = a
         else:
             ren[p] = p + tag
             prefix.append(ast.Assign(targets=[ast.Name(id=p + tag, ctx=ast.Store())], value=copy.deepcopy(a), lineno=call.lineno, col_offset=0))
-    # the receiver: helpers are only inlined into methods of the same class, where `self`/`cls` denote the same object
-    first = fn.args.args[0].arg if fn.args.args and recv_kind == "method" and "staticmethod" not in [ast.unparse(d) for d in fn.decorator_list] else None
-    if first is not None and first != self_name:
-        sub[first] = ast.Name(id=self_name, ctx=ast.Load())
+    # the receiver of a method helper stands for its first parameter (`type(<receiver>)` for a classmethod called on an instance)
+    decos_ = [ast.unparse(d) for d in fn.decorator_list]
+    first = fn.args.args[0].arg if fn.args.args and recv_kind == "method" and "staticmethod" not in decos_ else None
+    if first is not None:
+        recv = copy.deepcopy(call.func.value)
+        if "classmethod" in decos_ and not (isinstance(recv, ast.Name) and (recv.id == "cls" or recv.id[:1].isupper())):
+            recv = ast.Call(func=ast.Name(id="type", ctx=ast.Load()), args=[recv], keywords=[])
+        if first in stored:
+            return None
+        if not (isinstance(recv, ast.Name) and recv.id == first):
+            sub[first] = recv
     holder = ast.Module(body=body, type_ignores=[])
     _Rename(ren).visit(holder)
+    if lam:
+        _BetaReduce(lam).visit(holder)
     _Sub(sub).visit(holder)
     body = holder.body
     result = None
@@ -312,19 +444,55 @@ def _expand(fn, call, recv_kind, self_name, result_name=None):
     return prefix + body, result
 
 
-class _Inliner:
-    def __init__(self, tree, cnt):
-        self.tree = tree
-        self.mod_helpers = {}
-        self.cls_helpers = {}
-        for st in tree.body:
+_HELPERS = {}        # name -> (FunctionDef, "function" | "method", module tree)   (package-wide; names are unique)
+_INLINED = set()     # helper names that were inlined somewhere
+_BUILTINS = set(dir(__import__("builtins")))
+
+
+def prepare(trees, cnt):
+    """package-wide table of inlinable helpers (private, defined once): module-level functions and methods"""
+    _HELPERS.clear()
+    _INLINED.clear()
+    for t in trees:
+        for st in t.body:
             if isinstance(st, ast.FunctionDef) and _helper_ok(st, cnt):
-                self.mod_helpers[st.name] = st
-        for c in ast.walk(tree):
+                _HELPERS[st.name] = (st, "function", t)
+        for c in ast.walk(t):
             if isinstance(c, ast.ClassDef):
                 for st in c.body:
                     if isinstance(st, ast.FunctionDef) and _helper_ok(st, cnt):
-                        self.cls_helpers[(c.name, st.name)] = st
+                        _HELPERS[st.name] = (st, "method", t)
+
+
+def _module_names(tree):
+    out = set()
+    for st in tree.body:
+        if isinstance(st, (ast.FunctionDef, ast.ClassDef, ast.AsyncFunctionDef)):
+            out.add(st.name)
+        elif isinstance(st, (ast.Import, ast.ImportFrom)):
+            for a in st.names:
+                out.add((a.asname or a.name).split(".")[0])
+        elif isinstance(st, (ast.Assign, ast.AnnAssign, ast.AugAssign)):
+            for n in ast.walk(st):
+                if isinstance(n, ast.Name) and isinstance(n.ctx, ast.Store):
+                    out.add(n.id)
+    return out
+
+
+def _free_names(fn):
+    bound = _stored_names(fn) | {a.arg for a in fn.args.args}
+    for n in ast.walk(fn):
+        if isinstance(n, ast.comprehension):
+            bound |= {x.id for x in ast.walk(n.target) if isinstance(x, ast.Name)}
+        elif isinstance(n, ast.Lambda):
+            bound |= {a.arg for a in n.args.args}
+    return {n.id for n in ast.walk(fn) if isinstance(n, ast.Name) and isinstance(n.ctx, ast.Load)} - bound - _BUILTINS
+
+
+class _Inliner:
+    def __init__(self, tree, cnt):
+        self.tree = tree
+        self.names_here = _module_names(tree)
         self.n = 0
 
     def run(self):
@@ -346,16 +514,20 @@ class _Inliner:
             else:
                 self._scope(ch, cls, fn)
 
+    def _usable_here(self, h, tree):
+        """the helper's free names (imports, module globals) mean the same thing in this module"""
+        return tree is self.tree or _free_names(h) <= self.names_here
+
     def _match(self, call, cls, self_name, host):
         f = call.func
-        if isinstance(f, ast.Name) and f.id in self.mod_helpers and self.mod_helpers[f.id] is not host:
-            return self.mod_helpers[f.id], "function"
-        if cls is not None and isinstance(f, ast.Attribute) and isinstance(f.value, ast.Name):
-            h = self.cls_helpers.get((cls.name, f.attr))
-            if h is not None and h is not host and f.value.id in (self_name, "cls", cls.name):
-                decos = [ast.unparse(d) for d in h.decorator_list]
-                if f.value.id == self_name or decos:
-                    return h, "method"
+        if isinstance(f, ast.Name) and f.id in _HELPERS:
+            h, kind, tree = _HELPERS[f.id]
+            if kind == "function" and h is not host and tree is self.tree:
+                return h, "function"
+        if isinstance(f, ast.Attribute) and f.attr in _HELPERS and _is_simple(f.value) and not isinstance(f.value, ast.Constant):
+            h, kind, tree = _HELPERS[f.attr]
+            if kind == "method" and h is not host and self._usable_here(h, tree):
+                return h, "method"
         return None, None
 
     def _func(self, fn, cls):
@@ -415,6 +587,7 @@ class _Inliner:
                 if r is None or r[0]:
                     return node
                 inl.n += 1
+                _INLINED.add(h.name)
                 return r[1]
 
             def visit_Lambda(s, node):
@@ -448,6 +621,7 @@ class _Inliner:
                 return None
             pre, res = r
             self.n += 1
+            _INLINED.add(h.name)
             if tname is not None and isinstance(res, ast.Name) and res.id == tname:
                 return pre          # the branches assign the target themselves
             if isinstance(st, ast.Expr):
@@ -467,6 +641,7 @@ class _Inliner:
                     return None
                 pre, res = r
                 self.n += 1
+                _INLINED.add(h.name)
                 outer.args[i] = res
                 return pre + [st]
         return None
@@ -778,6 +953,226 @@ def _unenumerate(fn):
     return n_done
 
 
+def _inline_single_use_temps(fn):
+    """`t = E` immediately followed by a statement whose header expression reads t exactly once, before anything else in it is
+    called, and t is used nowhere else: substitute E (inlining a helper leaves such temporaries for its arguments)"""
+    n_done = 0
+    loads, stores = {}, {}
+    for n in ast.walk(fn):
+        if isinstance(n, ast.Name):
+            d = loads if isinstance(n.ctx, ast.Load) else stores
+            d[n.id] = d.get(n.id, 0) + 1
+        elif isinstance(n, ast.arg):
+            stores[n.arg] = stores.get(n.arg, 0) + 2
+        elif isinstance(n, (ast.Global, ast.Nonlocal)):
+            for x in n.names:
+                stores[x] = stores.get(x, 0) + 2
+    cands = {v for v in stores if stores[v] == 1 and loads.get(v, 0) == 1}
+    if not cands:
+        return 0
+
+    def header(st):
+        if isinstance(st, (ast.For, ast.AsyncFor)):
+            return "iter"
+        if isinstance(st, ast.If):
+            return "test"
+        if isinstance(st, (ast.Return, ast.Assign, ast.Expr, ast.AugAssign, ast.AnnAssign)):
+            return "value"
+        return None
+
+    for owner in ast.walk(fn):
+        for fld in ("body", "orelse", "finalbody"):
+            blk = getattr(owner, fld, None)
+            if not (isinstance(blk, list) and blk and isinstance(blk[0], ast.stmt)):
+                continue
+            i = 0
+            while i + 1 < len(blk):
+                a, b = blk[i], blk[i + 1]
+                hf = header(b)
+                if (isinstance(a, ast.Assign) and len(a.targets) == 1 and isinstance(a.targets[0], ast.Name) and a.targets[0].id in cands
+                        and hf and getattr(b, hf, None) is not None):
+                    v = a.targets[0].id
+                    e = getattr(b, hf)
+                    occ = [x for x in ast.walk(e) if isinstance(x, ast.Name) and x.id == v]
+                    if len(occ) == 1 and not any(isinstance(x, (ast.Lambda, ast.ListComp, ast.GeneratorExp, ast.SetComp, ast.DictComp, ast.IfExp, ast.BoolOp))
+                                                 for x in ast.walk(e)):
+                        # every call in the expression must have the temp among its (transitive) arguments: nothing runs before it
+                        ok = True
+                        for c in ast.walk(e):
+                            if isinstance(c, ast.Call) and not any(x is occ[0] for x in ast.walk(c)):
+                                ok = False
+                        # for an assignment, target sub-expressions are evaluated after the value: fine
+                        if ok:
+                            setattr(b, hf, _Sub({v: a.value}).visit(e))
+                            del blk[i]
+                            n_done += 1
+                            continue
+                i += 1
+    return n_done
+
+
+class _ConstGetattr(ast.NodeTransformer):
+    """getattr(x, "name") -> x.name   (arises when a helper taking the attribute name is inlined)"""
+
+    def visit_Call(self, node):
+        self.generic_visit(node)
+        if (isinstance(node.func, ast.Name) and node.func.id == "getattr" and len(node.args) == 2 and not node.keywords
+                and isinstance(node.args[1], ast.Constant) and isinstance(node.args[1].value, str) and node.args[1].value.isidentifier()):
+            return ast.copy_location(ast.Attribute(value=node.args[0], attr=node.args[1].value, ctx=ast.Load()), node)
+        return node
+
+
+def _module_tables(tree):
+    """module-level names assigned exactly once to a literal tuple/list of constants or of tuples of constants"""
+    cnt, val = {}, {}
+    for st in tree.body:
+        if isinstance(st, ast.Assign) and len(st.targets) == 1 and isinstance(st.targets[0], ast.Name):
+            cnt[st.targets[0].id] = cnt.get(st.targets[0].id, 0) + 1
+            val[st.targets[0].id] = st.value
+    for n in ast.walk(tree):
+        if isinstance(n, ast.Name) and isinstance(n.ctx, (ast.Store, ast.Del)) and n.id in cnt and not any(
+                isinstance(st, ast.Assign) and st.targets[0] is n for st in tree.body if isinstance(st, ast.Assign)):
+            cnt[n.id] += 1
+        if isinstance(n, ast.Global):
+            for x in n.names:
+                cnt[x] = cnt.get(x, 0) + 2
+    out = {}
+    for k, v in val.items():
+        if cnt.get(k) == 1 and isinstance(v, (ast.Tuple, ast.List)) and 1 <= len(v.elts) <= 8 and all(
+                isinstance(e, ast.Constant) or (isinstance(e, (ast.Tuple, ast.List)) and all(isinstance(y, ast.Constant) for y in e.elts)) for e in v.elts):
+            out[k] = v
+    return out
+
+
+class _PartialEval(ast.NodeTransformer):
+    """what is left to simplify once constants were substituted: setattr with a constant name, `True and x`, `if False:`"""
+
+    def visit_Expr(self, node):
+        self.generic_visit(node)
+        c = node.value
+        if (isinstance(c, ast.Call) and isinstance(c.func, ast.Name) and c.func.id == "setattr" and len(c.args) == 3 and not c.keywords
+                and isinstance(c.args[1], ast.Constant) and isinstance(c.args[1].value, str) and c.args[1].value.isidentifier()):
+            return ast.copy_location(ast.Assign(targets=[ast.Attribute(value=c.args[0], attr=c.args[1].value, ctx=ast.Store())], value=c.args[2]), node)
+        return node
+
+    def visit_BoolOp(self, node):
+        self.generic_visit(node)
+        is_and = isinstance(node.op, ast.And)
+        vals = []
+        for v in node.values:
+            if isinstance(v, ast.Constant) and isinstance(v.value, bool):
+                if v.value == is_and:
+                    continue              # neutral element
+                return ast.copy_location(ast.Constant(value=v.value), node) if not vals else ast.copy_location(
+                    ast.BoolOp(op=node.op, values=vals + [v]), node) if False else (ast.copy_location(ast.Constant(value=v.value), node) if not vals else node)
+            vals.append(v)
+        if not vals:
+            return ast.copy_location(ast.Constant(value=is_and), node)
+        if len(vals) == 1:
+            return vals[0]
+        node.values = vals
+        return node
+
+    def _block(self, stmts):
+        out = []
+        for st in stmts:
+            r = self.visit(st)
+            if isinstance(r, list):
+                out.extend(r)
+            elif r is not None:
+                out.append(r)
+        return out
+
+    def visit_If(self, node):
+        node.test = self.visit(node.test)
+        node.body = self._block(node.body) or [ast.Pass()]
+        node.orelse = self._block(node.orelse)
+        if isinstance(node.test, ast.Constant) and isinstance(node.test.value, bool):
+            return node.body if node.test.value else (node.orelse or None)
+        return node
+
+    def generic_visit(self, node):
+        for fld, val in ast.iter_fields(node):
+            if isinstance(val, list) and val and isinstance(val[0], ast.stmt):
+                setattr(node, fld, self._block(val) or [ast.Pass()])
+            elif isinstance(val, list):
+                setattr(node, fld, [self.visit(v) if isinstance(v, ast.AST) else v for v in val])
+            elif isinstance(val, ast.AST):
+                setattr(node, fld, self.visit(val))
+        return node
+
+
+def _unroll_literal_loops(fn, tables=None):
+    """`for x in (a, b, c): BODY` over a literal tuple/list of simple expressions -> BODY[x:=a]; BODY[x:=b]; BODY[x:=c]"""
+    n_done = 0
+    for owner in ast.walk(fn):
+        for fld in ("body", "orelse", "finalbody"):
+            blk = getattr(owner, fld, None)
+            if not (isinstance(blk, list) and blk and isinstance(blk[0], ast.stmt)):
+                continue
+            i = 0
+            while i < len(blk):
+                lp = blk[i]
+                tnames = None
+                if isinstance(lp, ast.For) and isinstance(lp.iter, ast.Name) and tables and lp.iter.id in tables and not lp.orelse \
+                        and not any(isinstance(n, ast.Name) and n.id == lp.iter.id and isinstance(n.ctx, ast.Store) for n in ast.walk(fn)):
+                    lp.iter = copy.deepcopy(tables[lp.iter.id])
+                    from_table = True
+                else:
+                    from_table = False
+                if isinstance(lp, ast.For) and isinstance(lp.iter, (ast.Tuple, ast.List)) and 1 <= len(lp.iter.elts) <= (8 if from_table else 4) and not lp.orelse:
+                    if isinstance(lp.target, ast.Name) and all(_is_simple(e) and (from_table or not isinstance(e, ast.Constant)) for e in lp.iter.elts):
+                        tnames = [lp.target.id]
+                    elif (isinstance(lp.target, ast.Tuple) and all(isinstance(t, ast.Name) for t in lp.target.elts)
+                          and all(isinstance(e, (ast.Tuple, ast.List)) and len(e.elts) == len(lp.target.elts)
+                                  and all(_is_simple(y) for y in e.elts) for e in lp.iter.elts)):
+                        tnames = [t.id for t in lp.target.elts]
+                if tnames:
+                    x = tnames[0]
+                    inner = [n for st in lp.body for n in ast.walk(st)]
+                    own_jumps = []
+
+                    def jumps(stmts, depth):
+                        for st in stmts:
+                            if isinstance(st, (ast.Break, ast.Continue)) and depth == 0:
+                                own_jumps.append(st)
+                            for f2 in ("body", "orelse", "finalbody"):
+                                v = getattr(st, f2, None)
+                                if isinstance(v, list) and v and isinstance(v[0], ast.stmt):
+                                    jumps(v, depth + (1 if isinstance(st, (ast.For, ast.While)) else 0))
+                            for h in getattr(st, "handlers", []) or []:
+                                jumps(h.body, depth)
+                    jumps(lp.body, 0)
+                    stored = any(isinstance(n, ast.Name) and n.id in tnames and isinstance(n.ctx, (ast.Store, ast.Del)) for n in inner)
+                    nested_def = any(isinstance(n, (ast.FunctionDef, ast.Lambda, ast.ClassDef)) for n in inner)
+                    used_after = any(isinstance(n, ast.Name) and n.id in tnames for st in blk[i + 1:] for n in ast.walk(st))
+                    if not (own_jumps or stored or nested_def or used_after):
+                        # locals that live inside one iteration only (first touched by a store, never seen outside the loop) get a
+                        # fresh name per copy, so that each copy's temporaries stay single-assignment
+                        inner_ids = {id(n) for n in inner}
+                        body_stored = {n.id for n in inner if isinstance(n, ast.Name) and isinstance(n.ctx, ast.Store)}
+                        outside = {n.id for n in ast.walk(fn) if isinstance(n, ast.Name) and id(n) not in inner_ids}
+                        first = {}
+                        for k_, nm_, _lp in _events(lp.body):
+                            if k_ in ("use", "store") and nm_ not in first:
+                                first[nm_] = k_
+                        iter_local = {v for v in body_stored if v not in outside and first.get(v) == "store"}
+                        new = []
+                        for e in lp.iter.elts:
+                            m = {tnames[0]: e} if len(tnames) == 1 and isinstance(lp.target, ast.Name) else dict(zip(tnames, e.elts))
+                            _CNT[0] += 1
+                            ren = {v: "%s_u%d" % (v, _CNT[0]) for v in iter_local}
+                            for st in copy.deepcopy(lp.body):
+                                st = _Rename(ren).visit(st) if ren else st
+                                new.append(_Sub(m).visit(st))
+                        blk[i:i + 1] = new
+                        n_done += 1
+                        i += len(new)
+                        continue
+                i += 1
+    return n_done
+
+
 class _FoldConst(ast.NodeTransformer):
     """integer constant folding (only arises after constants were substituted for a helper's parameters)"""
     OPS = {ast.Add: lambda a, b: a + b, ast.Sub: lambda a, b: a - b, ast.Mult: lambda a, b: a * b, ast.LShift: lambda a, b: a << b,
@@ -807,17 +1202,52 @@ def _renumber(tree):
     rec(tree)
 
 
+def drop_inlined_helpers(trees):
+    """after every module was normalised: a helper that was inlined and is referenced nowhere any more is removed (rules that
+    scan "every function of the class / module" then see the code where it now lives, once)"""
+    refs = {}
+    for t in trees:
+        for n in ast.walk(t):
+            if isinstance(n, ast.Name):
+                refs[n.id] = refs.get(n.id, 0) + 1
+            elif isinstance(n, ast.Attribute):
+                refs[n.attr] = refs.get(n.attr, 0) + 1
+            elif isinstance(n, ast.Constant) and isinstance(n.value, str) and n.value.isidentifier():
+                refs[n.value] = refs.get(n.value, 0) + 1       # getattr(obj, "name") / __all__
+    dropped = []
+    for name in sorted(_INLINED):
+        if refs.get(name, 0):
+            continue
+        h, kind, tree = _HELPERS[name]
+        for owner in ast.walk(tree):
+            body = getattr(owner, "body", None)
+            if isinstance(body, list) and any(x is h for x in body):
+                body[:] = [x for x in body if x is not h] or [ast.Pass()]
+                dropped.append(name)
+    return dropped
+
+
 def normalise(tree, cnt):
     """in place; returns (#inlined calls, #aliases folded, #enumerates rewritten)"""
-    n_inl = _Inliner(tree, cnt).run()
+    n_cm = _inline_context_managers(tree, _CLASS_CNT)
+    n_inl = _Inliner(tree, cnt).run() + n_cm
     if n_inl:
         _FoldConst().visit(tree)
+        _ConstGetattr().visit(tree)
     n_al = n_en = 0
     stable_ok = not _has_dynamic_setattr(tree)
+    tables = _module_tables(tree)
     for fn in ast.walk(tree):
         if isinstance(fn, (ast.FunctionDef, ast.AsyncFunctionDef)):
             n_en += _unenumerate(fn)
+            k = _unroll_literal_loops(fn, tables)
+            if k:
+                _ConstGetattr().visit(fn)
+                _PartialEval().visit(fn)
+            n_en += k
             n_al += _fold_aliases(fn, stable_ok)
+            if n_inl:
+                n_al += _inline_single_use_temps(fn)
     ast.fix_missing_locations(tree)
     _renumber(tree)
     return n_inl, n_al, n_en
